@@ -158,6 +158,15 @@ def analyse_module(prog, rep, rel, own, inplace, deep, writes_params, tier):
                 continue
             if bname in NON_OPERAND_PARAMS:
                 continue
+            # a local that only names (part of) such a parameter: `attrs = h5gr.attrs`
+            dvals = fi.defs.get(bname, []) if bname not in fi.params else []
+            if dvals:
+                def _base(e):
+                    while isinstance(e, (ast.Attribute, ast.Subscript)):
+                        e = e.value
+                    return e.id if isinstance(e, ast.Name) else None
+                if all(_base(v) in NON_OPERAND_PARAMS for v in dvals):
+                    continue
             if private and bname in fi.params and bname not in ('self', 'cls') and \
                     f.name in writes_params and bname in writes_params[f.name][0]:
                 # output parameter of a private helper: decided at its call sites (OWN-callee)
